@@ -442,14 +442,14 @@ static void run_dec(uint64_t seed, long cases)
 /* ---- ms: the same relations stream by stream through the multistream API */
 static void run_ms(uint64_t seed, long cases)
 {
-   long c, frames = 0, samples = 0, clipped = 0, bytes = 0;
+   long c, frames = 0, samples = 0, clipped = 0, bytes = 0, n_custom = 0;
    static opus_int16 p16[960 * 8]; static opus_int32 p24[960 * 8]; static float pf[960 * 8];
    static float of[5760 * 8], ch1[5760]; static opus_int16 o16[5760 * 8]; static opus_int32 o24[5760 * 8];
    unsigned char k16[12000], k24[12000], kf[12000];
    for (c = case0; c < case0 + cases; c++) {
-      vrng r; int Fs, ch, fam, streams, coupled, err, f, nframes, kind, amp, fsz, i, k, br, cx, vbr, cvbr, depth, fec, dtx, sig;
+      vrng r; int Fs, ch, fam, streams, coupled, err, f, nframes, kind, amp, fsz, i, k, br, cx, vbr, cvbr, depth, fec, dtx, sig, custom;
       unsigned char mapping[8]; OpusMSEncoder *es[3]; OpusMSDecoder *d16, *d24, *df; double ph[8]; float mem[8];
-      char inp[400], exp[200], obs[240];
+      char inp[560], exp[200], obs[240];
       r.s = seed * 1000003ULL + c + 0x3157;
       Fs = rates[vbelow(&r, 5)];
       fam = vchance(&r, 70) ? 1 : (vchance(&r, 50) ? 0 : 255);
@@ -458,6 +458,26 @@ static void run_ms(uint64_t seed, long cases)
       if (br != OPUS_BITRATE_MAX) br = br / 3 * ch + 8000;
       fsz = durs48[vbelow(&r, 4)] * (Fs / 1000) / 48;
       kind = vbelow(&r, 6); amp = vchance(&r, 40) ? 32767 : vrange(&r, 50, 30000); nframes = vrange(&r, 4, 8);
+      /* explicit layouts: any assignment of input channels to stream channels — permutations (a coupled stream whose RIGHT
+         channel is input channel 0), duplicates, unused inputs (255) — with the analysis running; every input channel
+         carries different content (own phase / own noise), so a down-mix that drops or swaps a channel changes the analysis */
+      custom = vchance(&r, 50);
+      if (custom) {
+         int K, k, tries = 0; unsigned char perm[8];
+         if (vchance(&r, 80)) { cx = vrange(&r, 7, 10); sig = OPUS_AUTO; }
+         if (vchance(&r, 80)) Fs = rates[vrange(&r, 2, 4)];
+         fsz = durs48[vbelow(&r, 4)] * (Fs / 1000) / 48;
+         do { streams = vrange(&r, 1, 3); coupled = vrange(&r, 0, streams); K = streams + coupled; ch = K + (int)vbelow(&r, 3); } while ((ch > 8 || ch < 1) && ++tries < 50);
+         if (ch > 8) ch = 8;
+         for (i = 0; i < ch; i++) perm[i] = (unsigned char)i;
+         for (i = ch - 1; i > 0; i--) { int j = vbelow(&r, i + 1); unsigned char t = perm[i]; perm[i] = perm[j]; perm[j] = t; }
+         for (i = 0; i < ch; i++) mapping[i] = vchance(&r, 40) ? 255 : (unsigned char)vbelow(&r, K);   /* spare inputs: unused or duplicates */
+         for (k = 0; k < K && k < ch; k++) mapping[perm[k]] = (unsigned char)k;                             /* every stream channel is fed */
+         fam = -1;
+         if (br != OPUS_BITRATE_MAX) br = 16000 * K + (int)vbelow(&r, 64000 * K);
+         { int msapp = vchance(&r, 50) ? OPUS_APPLICATION_AUDIO : OPUS_APPLICATION_VOIP;
+           for (i = 0; i < 3; i++) es[i] = opus_multistream_encoder_create(Fs, ch, streams, coupled, mapping, msapp, &err); }
+      } else
       for (i = 0; i < 3; i++) es[i] = opus_multistream_surround_encoder_create(Fs, ch, fam, &streams, &coupled, mapping, OPUS_APPLICATION_AUDIO, &err);
       if (!es[0] || !es[1] || !es[2]) { for (i = 0; i < 3; i++) if (es[i]) opus_multistream_encoder_destroy(es[i]); continue; }
       for (i = 0; i < 3; i++) {
@@ -469,8 +489,10 @@ static void run_ms(uint64_t seed, long cases)
       d24 = opus_multistream_decoder_create(Fs, ch, streams, coupled, mapping, &err);
       df = opus_multistream_decoder_create(Fs, ch, streams, coupled, mapping, &err);
       for (i = 0; i < 8; i++) { ph[i] = 0.4 * i; mem[i] = 0; }
-      snprintf(inp, sizeof inp, "c13_pcm ms %llu: case %ld Fs=%d channels=%d family=%d streams=%d coupled=%d bitrate=%d complexity=%d vbr=%d cvbr=%d lsb_depth=%d frame=%d kind=%d amp=%d",
-               (unsigned long long)seed, c, Fs, ch, fam, streams, coupled, br, cx, vbr, cvbr, depth, fsz, kind, amp);
+      snprintf(inp, sizeof inp, "c13_pcm ms %llu: case %ld Fs=%d channels=%d family=%d streams=%d coupled=%d bitrate=%d complexity=%d vbr=%d cvbr=%d lsb_depth=%d frame=%d kind=%d amp=%d mapping=%d,%d,%d,%d,%d,%d,%d,%d",
+               (unsigned long long)seed, c, Fs, ch, fam, streams, coupled, br, cx, vbr, cvbr, depth, fsz, kind, amp,
+               mapping[0], ch > 1 ? mapping[1] : -1, ch > 2 ? mapping[2] : -1, ch > 3 ? mapping[3] : -1, ch > 4 ? mapping[4] : -1, ch > 5 ? mapping[5] : -1, ch > 6 ? mapping[6] : -1, ch > 7 ? mapping[7] : -1);
+      n_custom += custom;
       for (f = 0; f < nframes; f++) {
          int l16, l24, lf, n16, n24, nf; opus_uint32 r16, r24, rf, q16, q24, qf;
          if (f > 0 && (c & 1) && vchance(&r, 30)) {   /* mid-stream reset of the three decoders; a reset decoder has a cleared soft-clip memory */
@@ -522,7 +544,7 @@ static void run_ms(uint64_t seed, long cases)
       for (i = 0; i < 3; i++) opus_multistream_encoder_destroy(es[i]);
       opus_multistream_decoder_destroy(d16); opus_multistream_decoder_destroy(d24); opus_multistream_decoder_destroy(df);
    }
-   printf("STAT cases=%ld configs=%ld samples=%ld samples_soft_clipped=%ld packet_bytes=%ld witnesses=%ld\n", frames, cases, samples, clipped, bytes, n_wit);
+   printf("STAT cases=%ld configs=%ld samples=%ld samples_soft_clipped=%ld packet_bytes=%ld explicit_layouts=%ld witnesses=%ld\n", frames, cases, samples, clipped, bytes, n_custom, n_wit);
 }
 
 /* ---- proj: projection decoder, 16-bit output against the float output */
